@@ -59,6 +59,17 @@ macro_rules! cat_fixed_t {
         $m!(t_phantom, std::marker::PhantomData<u64>, 4, 0);
         $m!(t_tup_nested, ((u8, u8), [u16; 2]), 5, 0);
         $m!(t_res_opt, Result<Option<u8>, (u8, u8)>, 4, 0);
+        $m!(t_atomic_u8, std::sync::atomic::AtomicU8, 4, 0);
+        $m!(t_atomic_i8, std::sync::atomic::AtomicI8, 4, 0);
+        $m!(t_atomic_u16, std::sync::atomic::AtomicU16, 4, 0);
+        $m!(t_atomic_i16, std::sync::atomic::AtomicI16, 4, 0);
+        $m!(t_atomic_u32, std::sync::atomic::AtomicU32, 4, 0);
+        $m!(t_atomic_i32, std::sync::atomic::AtomicI32, 4, 0);
+        $m!(t_atomic_u64, std::sync::atomic::AtomicU64, 4, 0);
+        $m!(t_atomic_i64, std::sync::atomic::AtomicI64, 4, 0);
+        $m!(t_atomic_usize, std::sync::atomic::AtomicUsize, 4, 0);
+        $m!(t_atomic_isize, std::sync::atomic::AtomicIsize, 4, 0);
+        $m!(t_atomic_bool, std::sync::atomic::AtomicBool, 4, 0);
         $m!(t_ipaddr, std::net::IpAddr, 18, 0);
         $m!(t_socketaddr, std::net::SocketAddr, 18, 0);
     };
